@@ -2,6 +2,7 @@ package zog
 
 import (
 	"fmt"
+	"math"
 
 	"github.com/Oudwins/zog/conf"
 	p "github.com/Oudwins/zog/internals"
@@ -60,7 +61,12 @@ func Float32(opts ...SchemaOption) *NumberSchema[float32] {
 				return nil, err
 			}
 			if n, ok := x.(float64); ok {
-				return float32(n), nil
+				f := float32(n)
+				if math.IsInf(float64(f), 0) && !math.IsInf(n, 0) {
+					// a finite float64 beyond the float32 range would silently become +/-Inf
+					return nil, fmt.Errorf("failed to coerce to float32: %v is out of range", n)
+				}
+				return f, nil
 			}
 			return x, nil
 		},
